@@ -1,5 +1,6 @@
 """Calls, comprehensions, statements, loops and the per-function VC driver of the symbolic executor."""
 import ast
+import os
 import time
 
 import z3
@@ -14,6 +15,7 @@ from .symspec import SpecEval, to_bool, to_v
 
 MAX_INLINE_DEPTH = 6
 MAX_UNROLL = 40
+GEN_BUDGET_S = int(os.environ.get('PV_GEN_BUDGET_S', '150'))
 
 
 def register_class(reg, cname, target, nested=()):
@@ -108,6 +110,7 @@ class Executor(ExprMixin):
         self.entry = None
         self.used_contracts = set()
         self.npaths = 0
+        self.deadline = None
 
     # ------------------------------------------------------------------ VCs
     def vc(self, st, name, goal, decisive, info=''):
@@ -879,6 +882,9 @@ class Executor(ExprMixin):
         return flows
 
     def ex(self, n, st):
+        if self.deadline and time.time() > self.deadline:
+            raise NotFormed(f'path exploration exceeded its budget of {GEN_BUDGET_S} s (too many paths: '
+                            'a loop without invariant, or an unsplit case analysis)')
         m = getattr(self, 's_' + type(n).__name__, None)
         if m is None:
             raise NotFormed(f'statement {type(n).__name__} is outside the subset')
@@ -1500,7 +1506,10 @@ class Executor(ExprMixin):
         st.maxid = fresh('maxid0', T.I)
         st = st.add(st.maxid >= 0)
         xl = z3.Const('len_x', V)
-        st = st.add(z3.ForAll([xl], ln(xl) >= 0, patterns=[ln(xl)]))     # lengths are never negative
+        bg = [z3.ForAll([xl], ln(xl) >= 0, patterns=[ln(xl)])]     # lengths are never negative
+        for ax in getattr(self.reg, 'axioms', ()):      # defining axioms of recursive spec functions (triggered unfolding)
+            bg += list(ax())
+        st.bg = tuple(bg)
         fields = set(self.c.fields) | set(self.c.modifies)
         for info in self.reg.classes.values():
             fields |= set(info['fields'])
@@ -1515,6 +1524,7 @@ class Executor(ExprMixin):
 
     def run(self):
         """Generates all VCs of the function against its contract."""
+        self.deadline = time.time() + GEN_BUDGET_S
         st = self.initial_state()
         st = st.mark('old')
         ev = SpecEval(self.reg, st, st.env, st.marks)
